@@ -32,17 +32,25 @@ Proof. apply rune_count_fuel_le. Qed.
 Definition shaped (sigil : N) (id : bytes) : Prop :=
   mem_byte ch_colon id = true /\ exists r, id = sigil :: r.
 
-Lemma check_id_shaped sigil id : shaped sigil id -> check_id id sigil = check_id_length id.
+Lemma id_format_shaped sigil id : id_format id sigil = true <-> shaped sigil id.
 Proof.
-  intros [Hc [r ->]]. unfold check_id. rewrite Hc. cbn [negb]. rewrite N.eqb_refl. reflexivity.
+  unfold id_format, shaped. rewrite andb_true_iff. split.
+  - intros [Hc Hs]. split; [exact Hc|]. destruct id as [|c r]; [discriminate|].
+    apply N.eqb_eq in Hs. subst. eauto.
+  - intros [Hc [r ->]]. split; [exact Hc|apply N.eqb_refl].
 Qed.
 
-Lemma check_id_unshaped sigil id : ~ shaped sigil id -> check_id id sigil = VErr.
+Lemma id_format_unshaped sigil id : ~ shaped sigil id -> id_format id sigil = false.
 Proof.
-  intro H. unfold check_id. destruct (mem_byte ch_colon id) eqn:Hc; [|reflexivity]. cbn [negb].
-  destruct id as [|c r]; [reflexivity|]. destruct (c =? sigil) eqn:E; [|reflexivity].
-  exfalso. apply H. apply N.eqb_eq in E. subst. split; [exact Hc|eauto].
+  intro H. destruct (id_format id sigil) eqn:E; [|reflexivity].
+  apply id_format_shaped in E. contradiction.
 Qed.
+
+Lemma check_id_shaped sigil id : shaped sigil id -> check_id id sigil = check_id_length id.
+Proof. intro H. apply id_format_shaped in H. unfold check_id. rewrite H. reflexivity. Qed.
+
+Lemma check_id_unshaped sigil id : ~ shaped sigil id -> check_id id sigil = VErr.
+Proof. intro H. unfold check_id. rewrite (id_format_unshaped _ _ H). reflexivity. Qed.
 
 Lemma id_length_refused id : 255 < rune_count id -> check_id_length id = VTooLarge false.
 Proof.
@@ -125,43 +133,86 @@ Proof.
     pose proof (W k E). lia.
 Qed.
 
+(* the sender's format passes: a pseudo-ID version, or a sender of the shape checkIDFormat wants *)
+Definition sender_format_passes (v sender : bytes) : Prop :=
+  negb (bytes_eqb v pseudo_id_version) && negb (id_format sender 64) = false.
+
+Lemma sender_format_shaped v sender : shaped 64 sender -> sender_format_passes v sender.
+Proof.
+  intro H. apply id_format_shaped in H. unfold sender_format_passes. rewrite H. apply andb_false_r.
+Qed.
+
 (* only the byte limit of type / state key exceeded: persistable in every lenient version *)
 Lemma fields_byte_limit v json_len type sk sender room :
   lenient_version v = true ->
   json_len <= 65536 -> rune_count type <= 255 -> opt_within rune_count sk ->
-  rune_count sender <= 255 ->
+  rune_count sender <= 255 -> sender_format_passes v sender ->
   255 < len type \/ opt_over len sk ->
   check_fields v false json_len type sk sender room = VTooLarge true.
 Proof.
-  intros L H1 H2 H3 H4 H. unfold check_fields. rewrite max_event_length_65536, L.
+  intros L H1 H2 H3 H4 F H. unfold check_fields. rewrite max_event_length_65536, L.
   apply N.ltb_ge in H1. rewrite H1.
   rewrite max_id_length_255. pose proof H2 as H2'. apply N.ltb_ge in H2'. rewrite H2'.
   rewrite <- max_id_length_255. rewrite (opt_test_false _ _ H3).
   rewrite max_id_length_255. pose proof H4 as H4'. apply N.ltb_ge in H4'. rewrite H4'.
+  unfold sender_format_passes in F. rewrite F.
   destruct (255 <? len type) eqn:E; [reflexivity|].
   rewrite <- max_id_length_255.
   destruct H as [H|H]; [apply N.ltb_ge in E; lia|].
   rewrite (opt_test_true _ _ H). reflexivity.
 Qed.
 
-(* type and state key within the byte limit, sender within the code-point limit: the verdict is
-   the sender check, then the byte size of the room ID *)
+(* type and state key within the byte limit, sender within the code-point limit and of the right
+   format: the verdict is the byte size of the sender, then of the room ID *)
 Lemma fields_within v json_len type sk sender room :
   json_len <= 65536 -> len type <= 255 -> opt_within len sk -> rune_count sender <= 255 ->
+  sender_format_passes v sender ->
   check_fields v false json_len type sk sender room =
-    match (if bytes_eqb v pseudo_id_version then check_id_length sender else check_id sender 64) with
+    match check_id_length sender with
     | VOk => check_id_length room
     | e => e
     end.
 Proof.
-  intros H1 H2 H3 H4. unfold check_fields. rewrite max_event_length_65536.
+  intros H1 H2 H3 H4 F. unfold check_fields. rewrite max_event_length_65536.
   apply N.ltb_ge in H1. rewrite H1.
   pose proof (rune_count_le type) as R. rewrite max_id_length_255.
   assert (R2 : rune_count type <= 255) by lia. apply N.ltb_ge in R2. rewrite R2.
   rewrite <- max_id_length_255. rewrite (opt_test_false _ _ (opt_within_runes _ H3)).
   rewrite max_id_length_255. apply N.ltb_ge in H4. rewrite H4.
+  unfold sender_format_passes in F. rewrite F.
   apply N.ltb_ge in H2. rewrite H2.
   rewrite <- max_id_length_255. rewrite (opt_test_false _ _ H3). reflexivity.
+Qed.
+
+(* a sender without sigil or domain (outside the pseudo-ID version): refused as soon as no
+   limit that is not lenient is exceeded - whatever the byte sizes (repair of F100) *)
+Lemma fields_malformed_sender v json_len type sk sender room :
+  bytes_eqb v pseudo_id_version = false -> ~ shaped 64 sender ->
+  json_len <= 65536 -> rune_count type <= 255 -> opt_within rune_count sk ->
+  rune_count sender <= 255 ->
+  check_fields v false json_len type sk sender room = VErr.
+Proof.
+  intros P S H1 H2 H3 H4. unfold check_fields. rewrite max_event_length_65536.
+  apply N.ltb_ge in H1. rewrite H1.
+  rewrite max_id_length_255. apply N.ltb_ge in H2. rewrite H2.
+  rewrite <- max_id_length_255. rewrite (opt_test_false _ _ H3).
+  rewrite max_id_length_255. apply N.ltb_ge in H4. rewrite H4.
+  rewrite P, (id_format_unshaped _ _ S). reflexivity.
+Qed.
+
+(* ... and never accepted or persistable, whatever the sizes *)
+Lemma fields_malformed_sender_refused v json_len type sk sender room :
+  bytes_eqb v pseudo_id_version = false -> ~ shaped 64 sender ->
+  check_fields v false json_len type sk sender room = VErr
+  \/ check_fields v false json_len type sk sender room = VTooLarge false.
+Proof.
+  intros P S. unfold check_fields.
+  destruct (max_event_length <? json_len); [right; reflexivity|].
+  destruct (max_id_length <? rune_count type); [right; reflexivity|].
+  destruct (match sk with Some k => max_id_length <? rune_count k | None => false end);
+    [right; reflexivity|].
+  destruct (max_id_length <? rune_count sender); [right; reflexivity|].
+  rewrite P, (id_format_unshaped _ _ S). left. reflexivity.
 Qed.
 
 Lemma fields_refs_nil v json_len type sk sender room :
@@ -184,7 +235,6 @@ Section Table.
                        \/ (struct =? 3) = true /\ is_create_v3 type sk = false /\ exists r, room = 33 :: r.
   Hypothesis Hlenient : lenient_version v = true.
   Hypothesis Hpseudo : bytes_eqb v pseudo_id_version = false.
-  Hypothesis Hsender : shaped 64 sender.
   (* the event is otherwise valid: its room ID is one spec.NewRoomID accepts (repair of F9) *)
   Hypothesis Hroomvalid : room_valid room = true.
 
@@ -222,31 +272,48 @@ Section Table.
     intro H. destruct (id_length_cases room) as [[-> _]|[[-> _]|[_ Hr]]]; [reflexivity|reflexivity|lia].
   Qed.
 
-  Lemma table_ok : all_within_limits -> verdict_of = VOk.
+  Lemma table_ok : shaped 64 sender -> all_within_limits -> verdict_of = VOk.
   Proof.
-    intros (H1 & H2 & H3 & H4 & H5). rewrite verdict_unfold, (id_length_ok room H5). cbn [not_only_too_many_bytes].
+    intros Hsender (H1 & H2 & H3 & H4 & H5). rewrite verdict_unfold, (id_length_ok room H5). cbn [not_only_too_many_bytes].
     pose proof (rune_count_le sender) as Ls.
-    rewrite (fields_within v json_len type sk sender room H1 H2 H3 ltac:(lia)), Hpseudo.
-    rewrite (check_id_shaped 64 sender Hsender). rewrite (id_length_ok sender H4). apply id_length_ok. exact H5.
+    rewrite (fields_within v json_len type sk sender room H1 H2 H3 ltac:(lia) (sender_format_shaped v sender Hsender)).
+    rewrite (id_length_ok sender H4). apply id_length_ok. exact H5.
   Qed.
 
   Lemma opt_over_within_absurd f sk' : opt_over f sk' -> opt_within f sk' -> False.
   Proof. intros [k [E H]] W. pose proof (W k E). lia. Qed.
 
   Lemma table_persistable :
-    no_hard_limit_exceeded -> byte_limit_exceeded -> verdict_of = VTooLarge true.
+    shaped 64 sender -> no_hard_limit_exceeded -> byte_limit_exceeded -> verdict_of = VTooLarge true.
   Proof.
-    intros (H1 & H2 & H3 & H4 & H5) B. rewrite verdict_unfold, (room_not_refused H5).
+    intros Hsender (H1 & H2 & H3 & H4 & H5) B. rewrite verdict_unfold, (room_not_refused H5).
+    pose proof (sender_format_shaped v sender Hsender) as F.
     destruct (N.le_gt_cases (len type) 255) as [Ht|Ht];
       [|apply fields_byte_limit; auto].
     destruct (opt_over_dec len sk) as [Ok|Wk];
       [apply fields_byte_limit; auto|].
-    rewrite (fields_within v json_len type sk sender room H1 Ht Wk H4), Hpseudo.
-    rewrite (check_id_shaped 64 sender Hsender).
+    rewrite (fields_within v json_len type sk sender room H1 Ht Wk H4 F).
     destruct (N.le_gt_cases (len sender) 255) as [Hs|Hs].
     - rewrite (id_length_ok sender Hs). apply id_length_persistable; [exact H5|].
       destruct B as [B|[B|[B|B]]]; try lia. exfalso. eapply opt_over_within_absurd; eauto.
     - rewrite (id_length_persistable sender H4 Hs). reflexivity.
+  Qed.
+
+  (* a sender that is not of the form @...:... : refused, never persistable, whatever the sizes *)
+  Lemma table_malformed_sender :
+    ~ shaped 64 sender -> no_hard_limit_exceeded -> verdict_of = VErr.
+  Proof.
+    intros S (H1 & H2 & H3 & H4 & H5). rewrite verdict_unfold, (room_not_refused H5).
+    apply fields_malformed_sender; assumption.
+  Qed.
+
+  Lemma table_malformed_sender_refused :
+    ~ shaped 64 sender -> verdict_of = VErr \/ verdict_of = VTooLarge false.
+  Proof.
+    intro S. rewrite verdict_unfold.
+    destruct (id_length_cases room) as [[-> _]|[[-> _]|[-> _]]]; cbn [not_only_too_many_bytes];
+      try (apply fields_malformed_sender_refused; assumption).
+    right. reflexivity.
   Qed.
 
   (* any limit that is not lenient exceeded: refused, whatever else is merely too many bytes *)
@@ -260,20 +327,24 @@ Section Table.
   Qed.
 End Table.
 
-(* the three rows of the table together (the form Props/C17.v states) *)
+(* the rows of the table together (the form Props/C17.v states) *)
 Lemma check_fields_table_gen struct v json_len type sk sender room :
   ((struct =? 3) = false /\ shaped 33 room
    \/ (struct =? 3) = true /\ is_create_v3 type sk = false /\ exists r, room = 33 :: r) ->
   lenient_version v = true -> bytes_eqb v pseudo_id_version = false ->
-  shaped 64 sender -> room_valid room = true ->
+  room_valid room = true ->
   let verdict := event_checks struct v false json_len type sk sender room in
   (hard_limit_exceeded json_len type sk sender room -> verdict = VTooLarge false)
-  /\ (no_hard_limit_exceeded json_len type sk sender room ->
+  /\ (shaped 64 sender -> no_hard_limit_exceeded json_len type sk sender room ->
       byte_limit_exceeded type sk sender room -> verdict = VTooLarge true)
-  /\ (all_within_limits json_len type sk sender room -> verdict = VOk).
+  /\ (shaped 64 sender -> all_within_limits json_len type sk sender room -> verdict = VOk)
+  /\ (~ shaped 64 sender -> no_hard_limit_exceeded json_len type sk sender room -> verdict = VErr)
+  /\ (~ shaped 64 sender -> verdict = VErr \/ verdict = VTooLarge false).
 Proof.
-  intros H1 H2 H3 H4 H5. repeat split.
+  intros H1 H2 H3 H5. repeat split.
   - apply table_refused; assumption.
-  - apply table_persistable; assumption.
-  - apply table_ok; assumption.
+  - intro. apply table_persistable; assumption.
+  - intro. apply table_ok; assumption.
+  - intro. apply table_malformed_sender; assumption.
+  - intro. apply table_malformed_sender_refused; assumption.
 Qed.
